@@ -746,6 +746,11 @@ func packagePrepareWalkFn(root string, ignoreRules *ignorefiles.Ruleset, emptied
 			if filepath.IsAbs(target) {
 				return fmt.Errorf("module package path %q is a symlink with an absolute target", relPath)
 			}
+			// Likewise a relative target that climbs above the package root
+			// and comes back through the directory's current (temporary) name.
+			if !filepath.IsLocal(filepath.Join(filepath.Dir(relPath), target)) {
+				return fmt.Errorf("module package path %q is symlink traversing out of the package root", relPath)
+			}
 		}
 		realPath, err := filepath.EvalSymlinks(reAbsPath)
 		if err != nil {
